@@ -21,6 +21,7 @@ Detection is by operation HISTORIES over a shared pool of schemas and caller-own
 Only public API is used on d42 objects (s.props iteration / get for the dump is read-only).
 """
 import copy
+import json
 import os
 import pickle
 import random
@@ -1485,6 +1486,106 @@ def probe_dict_subclasses(ctx):
     return n
 
 
+def probe_rendering(ctx):
+    """validate(schema, value, path=p) with a caller-owned path object, then the result rendered
+    twice: rendering is an operation too - it returns the same text both times and leaves the
+    caller's path object, the value and the errors' own paths as they were."""
+    from th import PathHolder
+    from d42.validation import format_result
+    r = ctx.rng
+    n = 0
+    for _ in range(ctx.scale(150, 2000)):
+        ssrc, s = gen.gen_schema(r, r.randint(1, 3))
+        try:
+            v = gen.conform(r, s)
+        except Exception:  # noqa
+            continue
+        for w in [v] + gen.perturbations(r, v, limit=6):
+            own = PathHolder()["cfg"]["items"] if r.random() < 0.5 else PathHolder()
+            before_path, before_val = repr(own), _plain_dump(w)
+            try:
+                res = validate(s, w, path=own)
+                paths = [repr(e.path) for e in res.get_errors()]
+                m1 = format_result(res)
+                m2 = format_result(res)
+            except Exception:  # noqa  (C08's subject)
+                continue
+            n += 1
+            rp = {"kind": "history", "schema": ssrc, "value": gen.vsrc(w), "caller_path": before_path}
+            if m1 != m2:
+                rp.update(observed=[str(m1)[:300], str(m2)[:300]], expected="the same text twice")
+                ctx.violation("rendering the same validation result twice gives different text", rp)
+                return n
+            if repr(own) != before_path:
+                rp.update(observed=repr(own), expected=before_path)
+                ctx.violation("validate / format_result changed the path object passed in by the caller", rp)
+                return n
+            if [repr(e.path) for e in res.get_errors()] != paths:
+                rp.update(observed=[repr(e.path) for e in res.get_errors()][:5], expected=paths[:5])
+                ctx.violation("format_result changed the paths held by the errors it rendered", rp)
+                return n
+            if _plain_dump(w) != before_val:
+                rp.update(observed=_plain_dump(w)[:300], expected=before_val[:300])
+                ctx.violation("validate / format_result mutated the value", rp)
+                return n
+    return n
+
+
+_FRESH_CODE = r"""
+import json
+out = {}
+def attempt(name, f):
+    try:
+        r = f()
+        out[name] = "ok:" + type(r).__name__ + ":" + repr(r)[:80]
+    except Exception as e:
+        out[name] = "raise:" + type(e).__name__
+from d42 import schema
+s = schema.int.min(1)
+d = schema.dict({"a": schema.int, "b": schema.str.len(2)})
+ops = {
+    "invert_int": lambda: type(~schema.int(3)), "invert_dict": lambda: sorted(~d), "mod": lambda: s % 5,
+    "mod_dict": lambda: d % {"a": 1}, "add": lambda: d + schema.dict({"c": schema.none}), "or": lambda: s | schema.str,
+    "eq_value": lambda: s == 5, "ne_value": lambda: s != 0, "eq_schema": lambda: s == schema.int.min(1),
+    "repr": lambda: repr(d), "iter": lambda: list(d), "contains": lambda: "a" in d, "getitem": lambda: d["a"],
+    "len_refine": lambda: schema.list(schema.int).len(1, 2), "call": lambda: schema.str("ab"),
+}
+for k, f in ops.items():
+    attempt(k, f)
+first = dict(out)
+out.clear()
+import d42.generation, d42.validation, d42.substitution, d42.representation, d42.utils   # noqa
+from d42 import fake, substitute, validate, validate_or_fail, represent                  # noqa
+from d42.utils import from_native, make_required, rollout                                # noqa
+fake(schema.str); validate(s, 3); substitute(d, {"a": 1}); represent(d); from_native([1]); make_required(d)
+for k, f in ops.items():
+    attempt(k, f)
+print(json.dumps([first, out]))
+"""
+
+
+def probe_fresh_interpreter(ctx):
+    """In a fresh interpreter that has imported nothing but `from d42 import schema`, every
+    operator / method of a schema gives the same outcome before and after the rest of the
+    package has been imported and used (no behaviour hangs on an import side effect that a
+    later, unrelated call triggers)."""
+    env = dict(os.environ, PYTHONPATH=common.REPO, PYTHONHASHSEED="0")
+    p = subprocess.run([sys.executable, "-c", _FRESH_CODE], env=env, capture_output=True, text=True, timeout=120)
+    if p.returncode != 0:
+        ctx.violation("a fresh interpreter cannot run the basic operations on schemas",
+                      {"kind": "history", "observed": (p.stderr or p.stdout)[-600:], "code": _FRESH_CODE})
+        return 0
+    first, second = json.loads(p.stdout.strip().splitlines()[-1])
+    for k in first:
+        if first[k] != second[k]:
+            ctx.violation(f"the result of `{k}` on a fresh interpreter depends on what was imported / executed before it",
+                          {"kind": "history", "operation": k, "observed": [first[k], second[k]],
+                           "expected": "the same outcome before and after importing and using the rest of d42",
+                           "code": _FRESH_CODE})
+            break
+    return len(first)
+
+
 def _at(v, pos):
     for k in pos:
         v = v[k]
@@ -1513,6 +1614,8 @@ def run(ctx):
         pristine.close()
     probes = probe_dict_subclasses(ctx)
     ctx.coverage.setdefault("distribution", {})["dict_subclass_probes"] = probes
+    ctx.coverage["distribution"]["fresh_interpreter_ops"] = probe_fresh_interpreter(ctx)
+    ctx.coverage["distribution"]["rendering_probes"] = probe_rendering(ctx)
 
 
 def _run(ctx, pristine, n_hist, n_ops, depth, n_slices, shrink_budget, model_hist):
